@@ -78,8 +78,9 @@ v("c02-extra-skip", {"C02", "C10"}, (KFD, "            f_u_v = data[self.flow_at
 v("c02-wmax-halved", {"C02"}, (KFD, "        self.w_max = self.weight_type(\n            self.G.get_max_flow_value_and_check_non_negative_flow(\n                flow_attr=self.flow_attr, edges_to_ignore=self.edges_to_ignore\n            )\n        )",
                                 "        self.w_max = self.weight_type(\n            self.G.get_max_flow_value_and_check_non_negative_flow(\n                flow_attr=self.flow_attr, edges_to_ignore=self.edges_to_ignore\n            )\n        ) / 2", 1))
 # ----------------------------------------------------------------------------------------------- C03 / C04 / C09 / C15 searches
-v("c03-start-after-lowerbound", {"C03", "C13"}, (MFD, "for i in range(self.get_lowerbound_k(), self.G.number_of_edges() + 1):", "for i in range(self.get_lowerbound_k() + 1, self.G.number_of_edges() + 2):", 1))
-v("c03-range-off-by-one", {"C03"}, (MFD, "for i in range(self.get_lowerbound_k(), self.G.number_of_edges() + 1):", "for i in range(self.get_lowerbound_k(), self.G.number_of_edges()):", 1))
+v("c03-start-after-lowerbound", {"C03", "C13"}, (MFD, "for i in range(self.get_lowerbound_k(), self.G.number_of_edges() + len(self.subpath_constraints) + 1):", "for i in range(self.get_lowerbound_k() + 1, self.G.number_of_edges() + len(self.subpath_constraints) + 2):", 1))
+v("c03-range-off-by-one", {"C03"}, (MFD, "for i in range(self.get_lowerbound_k(), self.G.number_of_edges() + len(self.subpath_constraints) + 1):", "for i in range(self.get_lowerbound_k(), self.G.number_of_edges() + len(self.subpath_constraints)):", 1))
+v("c03-range-without-constraints", {"C03"}, (MFD, "for i in range(self.get_lowerbound_k(), self.G.number_of_edges() + len(self.subpath_constraints) + 1):", "for i in range(self.get_lowerbound_k(), self.G.number_of_edges() + 1):", 1))
 v("c03-width-without-ignore", {"C03", "C09"}, (MFD, "stG.get_width(edges_to_ignore=stG.source_sink_edges.union(self.edges_to_ignore))", "stG.get_width()", 1))
 v("c03-lowerbound-sum", {"C03"}, (MFD, "self._lowerbound_k = max(self._lowerbound_k, math.ceil(math.log2(len(all_weights))))", "self._lowerbound_k = self._lowerbound_k + math.ceil(math.log2(len(all_weights)))", 1))
 v("c03-given-weights-adopted-unconditionally", {"C03", "C05"}, (MFD, "                if len(self._given_weights_model.get_solution(remove_empty_paths=True)[\"paths\"]) == i:\n                    fd_model = self._given_weights_model",
@@ -198,8 +199,8 @@ v("benign-rename-loop-var", B, (AW, "        for i in range(self.k):\n          
 v("benign-constraint-name-changed", B, (KPC, "name=f\"cover_u={u}_v={v}\",", "name=f\"edge_cover_{u}_{v}\",", 1))
 v("benign-status-test-restyled", B, (MPC, "            elif model.solver.get_model_status() != sw.SolverWrapper.infeasible_status:\n", "            elif not (model.solver.get_model_status() == \"kInfeasible\"):\n", 1))
 v("benign-copy-style", B, (KPC, "self.optimization_options = optimization_options.copy() if optimization_options else {}", "self.optimization_options = dict(optimization_options) if optimization_options else {}", 1))
-v("benign-range-bound-generous", B, (MPCC, "self.G.number_of_edges() + 1):", "self.G.number_of_edges() + 2):", 1))
-v("benign-local-for-lowerbound", B, (MPC, "        for i in range(self.get_lowerbound_k(), self.G.number_of_edges() + 1):", "        first_k = self.get_lowerbound_k()\n        for i in range(first_k, self.G.number_of_edges() + 1):", 1))
+v("benign-range-bound-generous", B, (MPCC, "self.G.number_of_edges() + len(self.subset_constraints) + 1):", "self.G.number_of_edges() + len(self.subset_constraints) + 2):", 1))
+v("benign-local-for-lowerbound", B, (MPC, "        for i in range(max(1, self.get_lowerbound_k()), self.G.number_of_edges() + len(self.subpath_constraints) + 1):", "        first_k = max(1, self.get_lowerbound_k())\n        for i in range(first_k, self.G.number_of_edges() + len(self.subpath_constraints) + 1):", 1))
 v("benign-mccormick-rows-reordered", B, (SW, "        self.add_constraint(product_var <= ub * binary_var, name=name + \"_a\")\n        self.add_constraint(product_var >= lb * binary_var, name=name + \"_b\")\n",
                                            "        self.add_constraint(product_var >= lb * binary_var, name=name + \"_b\")\n        self.add_constraint(ub * binary_var >= product_var, name=name + \"_a\")\n", 1))
 v("benign-extra-logging", B, (MFD, "            utils.logger.info(f\"{__name__}: iteration with k = {i}\")\n", "            utils.logger.info(f\"{__name__}: iteration with k = {i}\")\n            utils.logger.debug(f\"{__name__}: still searching\")\n", 1))
